@@ -255,6 +255,11 @@ def _origin_ok(cfg: CFG, d: Node, fut: str, x: str, m: Fifo, loop: Node, sink: N
     if not isinstance(st, ast.Assign) or len(st.targets) != 1 or not is_name(st.targets[0], fut):
         return 'not a plain assignment'
     v = unwrap_await(st.value)
+    if isinstance(v, ast.Name):
+        # `coro = func(x); t = await coro`: the awaited coroutine bound to a local first
+        from .common import resolve_local
+
+        v = unwrap_await(resolve_local(cfg, d, v))
     if not isinstance(v, ast.Call):
         return 'not the result of a call'
     fn = dotted(v.func) or ''
